@@ -18,6 +18,7 @@
    7. non-vacuity examples, `pins`
 -/
 import MosVerif.Lemmas.TranslatedC02
+import MosVerif.Lemmas.TranslatedEnc
 import MosVerif.Lemmas.TranslatedCodecMsg
 import MosVerif.Lemmas.CodecWF
 import MosVerif.Model.WireIO
